@@ -2,20 +2,20 @@
 """Renders the seeded-change tables of DESIGN.md section 8.5 from /verif/seeded/*/meta.json (rounds 2 and 3; the round-1
 table is hand-written) and replaces the text between the markers <!-- seeded:begin --> and <!-- seeded:end -->."""
 import json, glob, os, re
-rows = {2: [], 3: [], 4: [], 5: [], 6: [], 7: [], 8: []}
+rows = {}
 for d in sorted(glob.glob('/verif/seeded/*')):
     m = json.load(open(d + '/meta.json'))
     r = m.get('round') or 1
-    if r not in rows:
+    if r < 2:
         continue
     c = m['caught_by']
     missed = c.lower().startswith('initially missed') or c.startswith('MISSED')
-    rows[r].append((m['property'], os.path.basename(d), m['needs_to_manifest'], missed, c))
+    rows.setdefault(r, []).append((m['property'], os.path.basename(d), m['needs_to_manifest'], missed, c))
 def clip(s, n):
     s = s.replace('|', '/').replace('\n', ' ')
     return s if len(s) <= n else s[:n - 1] + '…'
 out = []
-for r in (2, 3, 4, 5, 6, 7, 8):
+for r in sorted(rows):
     rs = sorted(rows[r])
     caught = sum(1 for x in rs if not x[3])
     out.append(f"  **Round {r}** ({len(rs)} changes: {caught} caught as built, {len(rs) - caught} missed at first and caught after the named addition):\n")
